@@ -358,6 +358,9 @@ func (te *TemplateEngine) RenderToDocument(templateName string, data *TemplateDa
 		return nil, WrapErrorWithContext("render_to_document", err, templateName)
 	}
 
+	// 还原被保护的数据值
+	restoreTemplateValues(doc)
+
 	return doc, nil
 }
 
@@ -390,6 +393,42 @@ func (te *TemplateEngine) renderTemplate(template *Template, data *TemplateData)
 	content = te.renderImages(content, data.Images)
 
 	return content, nil
+}
+
+// templateValueGuard 插入到数据值的每个 "{" 之后：值是原样插入的文本，
+// 其中形如模板指令的内容（{{name}}、{{#if}}、{{#each}}、{{else}} ……）不能被后续的渲染步骤当作模板语法解释
+const templateValueGuard = "\x00"
+
+// protectTemplateValue 保护一个将要插入渲染结果的数据值
+func protectTemplateValue(value string) string {
+	if !strings.Contains(value, "{") {
+		return value
+	}
+	return strings.ReplaceAll(value, "{", "{"+templateValueGuard)
+}
+
+// restoreTemplateValues 在所有渲染步骤（包括图片占位符处理）完成后还原文档中被保护的数据值
+func restoreTemplateValues(doc *Document) {
+	restore := func(paragraphs []*Paragraph) {
+		for _, para := range paragraphs {
+			for i := range para.Runs {
+				if strings.Contains(para.Runs[i].Text.Content, templateValueGuard) {
+					para.Runs[i].Text.Content = strings.ReplaceAll(para.Runs[i].Text.Content, "{"+templateValueGuard, "{")
+				}
+			}
+		}
+	}
+	restore(doc.Body.GetParagraphs())
+	for _, table := range doc.Body.GetTables() {
+		for r := range table.Rows {
+			for c := range table.Rows[r].Cells {
+				cell := &table.Rows[r].Cells[c]
+				for k := range cell.Paragraphs {
+					restore([]*Paragraph{&cell.Paragraphs[k]})
+				}
+			}
+		}
+	}
 }
 
 // applyBlockOverrides 将子模板的块重写应用到父模板内容中
@@ -443,7 +482,7 @@ func (te *TemplateEngine) renderVariables(content string, variables map[string]i
 	return varPattern.ReplaceAllStringFunc(content, func(match string) string {
 		varName := varPattern.FindStringSubmatch(match)[1]
 		if value, exists := variables[varName]; exists {
-			return te.interfaceToString(value)
+			return protectTemplateValue(te.interfaceToString(value))
 		}
 		return match // 保持原样
 	})
@@ -581,7 +620,7 @@ func (te *TemplateEngine) renderLoopsNested(content string, lists map[string][]i
 			}
 
 			// 创建循环上下文变量
-			loopContent = strings.ReplaceAll(loopContent, "{{this}}", te.interfaceToString(item))
+			loopContent = strings.ReplaceAll(loopContent, "{{this}}", protectTemplateValue(te.interfaceToString(item)))
 			loopContent = strings.ReplaceAll(loopContent, "{{@index}}", strconv.Itoa(i))
 			loopContent = strings.ReplaceAll(loopContent, "{{@first}}", strconv.FormatBool(i == 0))
 			loopContent = strings.ReplaceAll(loopContent, "{{@last}}", strconv.FormatBool(i == len(listData)-1))
@@ -593,7 +632,7 @@ func (te *TemplateEngine) renderLoopsNested(content string, lists map[string][]i
 					placeholder := fmt.Sprintf("{{%s}}", key)
 					// 只替换非列表类型的值
 					if _, isList := value.([]interface{}); !isList {
-						loopContent = strings.ReplaceAll(loopContent, placeholder, te.interfaceToString(value))
+						loopContent = strings.ReplaceAll(loopContent, placeholder, protectTemplateValue(te.interfaceToString(value)))
 					}
 				}
 
